@@ -352,7 +352,25 @@ fn emit_logs(_key: &str, _inv: usize, _phase: &str, n: usize) {
                 inv: _inv,
                 id: id.clone(),
             });
-            if LOG_AT_WARN.with(std::cell::Cell::get) {
+            if (_key.len() + _inv + _i) % 2 == 1 {
+                // every other log is emitted on the callable's behalf by a helper thread,
+                // with the callable's span as its explicit parent (the thread has no current
+                // span of its own); the callable waits for it
+                let span = tracing::Span::current();
+                let dispatch = tracing::dispatcher::get_default(Clone::clone);
+                let warn = LOG_AT_WARN.with(std::cell::Cell::get);
+                std::thread::spawn(move || {
+                    tracing::dispatcher::with_default(&dispatch, || {
+                        if warn {
+                            tracing::warn!(parent: &span, "[{id}] with__double__underscores {{braces}}");
+                        } else {
+                            tracing::info!(parent: &span, "[{id}] with__double__underscores {{braces}}");
+                        }
+                    });
+                })
+                .join()
+                .expect("log helper thread");
+            } else if LOG_AT_WARN.with(std::cell::Cell::get) {
                 tracing::warn!("[{id}] with__double__underscores {{braces}}");
             } else {
                 // (the text also carries the separator the collector frames messages with)
